@@ -272,7 +272,7 @@ def run_recon(case):
 
 # ------------------------------------------------------------------ STFT
 FUNCS = ["identity", "reverse", "scale"]
-STYLES = ["direct", "decorator", "partial-chain", "call-override", "partial-reassign", "partial-separately"]
+STYLES = ["direct", "decorator", "partial-chain", "call-override", "partial-reassign", "partial-separately", "partial-sibling"]
 
 
 def gen_stft(run):
@@ -400,6 +400,17 @@ def run_stft(case):
         right.setdefault("ola_wnd", None)
         right.setdefault("ola_normalize", True)
       proc = stft(**wrong)(**right)(func)
+    elif style == "partial-sibling":
+      # one configured partial is the parent of several processors: options given when deriving one child
+      # (another size, hop, windows, stages) belong to that child only
+      base = stft(**kws)
+      other = dict(size=size + 2, hop=1, wnd=[Q(9)] * (size + 2), transform=None, inverse_transform=None,
+                   before=None, after=None)
+      if kws["ola"] is not None:
+        other.update(ola_wnd=[Q(7)] * (size + 2), ola_normalize=not kws.get("ola_normalize", True))
+      sibling = base(**other)                       # a derived partial
+      sibling2 = base(lambda blk: blk, **other)     # a derived processor
+      proc = base(func)
     elif style == "partial-separately":
       # size and hop replaced in two separate partial steps: the configuration in between (new size, old
       # hop > size) is not a configuration anybody runs - only the final one counts
